@@ -90,13 +90,17 @@ def session_points(sess, root=None):
     """injection points of a recorded clean session: the FS calls between the W_Begin and W_Return markers"""
     pts = []
     inside = False
-    for c in sess.calls:
+    begin = 0
+    for ci, c in enumerate(sess.calls):
         if c["name"] == "marker":
             inside = c["marker"]["ev"] == "W_Begin"
+            if inside:
+                begin = ci
             continue
         if inside and c["i"] in sess.raw_counts:
             name, k = sess.raw_counts[c["i"]]
-            pt = {"raw": name, "when": k, "call": c["name"], "path": c.get("path", "").rsplit("/", 1)[-1]}
+            pt = {"raw": name, "when": k, "call": c["name"], "path": c.get("path", "").rsplit("/", 1)[-1],
+                  "nev": len(strace2nd.to_events(sess.calls[begin:ci], False))}
             if c["name"] == "write" and c.get("data") is not None and c["path"].endswith(".gpf") and c["n"] >= 2:
                 # enough is known to synthesise a torn write of this call (prefix of its data at its offset)
                 pt["torn"] = {"rel": os.path.relpath(c["path"], root) if root else None, "pos": c["pos"], "data": c["data"]}
@@ -111,15 +115,44 @@ class Experiment:
         self.events = []
         self.error = None
         self.fired = True
+        self.nev = None           # events of the recorded session that precede the planned injected call
+
+
+def _as_planned(x, s_idx, recorded):
+    """The child is deterministic: up to the injected call (Fault / Crash event) the events of the injected
+    session must repeat the recording of the clean run.  Anything else is a problem of the measurement
+    (ordinal of the injected call shifted by the runtime's own calls, a line of the log not attributed) -
+    not behaviour of the code under the planned fault."""
+    if x.error or x.desc["mode"] == "clean" or s_idx >= len(recorded):
+        return True
+    pre = 1 + sum(len(recorded[k]) for k in range(s_idx))
+    got = [e for e in x.events[pre:] if e["ev"] != "Observe"]
+    nev = x.nev
+    if nev is None:
+        return True
+    return got[:nev] == recorded[s_idx][:nev]
 
 
 def run_experiment(vh, base, hist, upto_state, s_idx, point, mode, errno, seed, enc, profile, xid, recorded):
+    """Runs the experiment; repeats it (up to three times) when the injected session does not repeat the
+    recording up to the injected call, and gives it up (error set, counted, never judged) after that."""
+    x = None
+    for attempt in range(3):
+        x = _run_experiment_once(vh, base, hist, upto_state, s_idx, point, mode, errno, seed, enc, profile, xid, recorded, attempt)
+        if _as_planned(x, s_idx, recorded):
+            return x
+    x.error = "unplanned: the injected session did not repeat the recording up to the injected call (3 attempts)"
+    return x
+
+
+def _run_experiment_once(vh, base, hist, upto_state, s_idx, point, mode, errno, seed, enc, profile, xid, recorded, attempt=0):
     """mode: 'kill' | 'fault' | 'clean'. upto_state: directory holding the DB after sessions < s_idx (or None)."""
     x = Experiment(xid, {"mode": mode, "session": s_idx, "ids": hist[s_idx] if s_idx < len(hist) else [],
                          "raw": point["raw"] if point else None, "when": point["when"] if point else None,
                          "call": point["call"] if point else None, "file": point["path"] if point else None,
                          "errno": errno, "enc": enc, "profile": profile, "seed": seed})
-    wd = os.path.join(base, "x%05d" % xid)
+    x.nev = point.get("nev") if point else None
+    wd = os.path.join(base, "x%05d" % xid if not attempt else "x%05d-r%d" % (xid, attempt))
     os.makedirs(wd)
     db = os.path.join(wd, "db")
     try:
